@@ -51,13 +51,16 @@ Definition send_ok (c : bool * list (string * string) * string) : bool :=
 (* a connection registered just after Close is shut down, and the registering call returns *)
 Definition late_ok (c : string * bool * bool) : bool := let '(_, a, b) := c in a && b.
 Definition bad_late := Eval vm_compute in bad_idx late_ok late_cases.
+(* a Send whose write fails returns the error and leaves the message with the caller: no release by the pipe *)
+Definition sendfail_ok (c : bool * N * bool * N) : bool := let '(_, _, e, fr) := c in e && (fr =? 0).
+Definition bad_sendfail := Eval vm_compute in bad_idx sendfail_ok sendfail_cases.
 Definition bad_scen := Eval vm_compute in bad_idx scenario_ok hs_scenarios.
 Definition bad_send := Eval vm_compute in bad_idx send_ok send_cases.
 Definition kinds := Eval vm_compute in
   map (fun k => count_true (fun c => hs_kind (hs_of c) =? k) (flat_map (fun s => fst (fst (fst s))) hs_scenarios)) [0; 2; 3; 4; 5].
 Definition nstalled := Eval vm_compute in count_true is_stalled (flat_map (fun s => fst (fst (fst s))) hs_scenarios).
 Definition ncases := Eval vm_compute in N.of_nat (length (flat_map (fun s => fst (fst (fst s))) hs_scenarios)).
-Print bad_late. Print bad_scen. Print bad_send. Print kinds. Print nstalled. Print ncases.
+Print bad_late. Print bad_sendfail. Print bad_scen. Print bad_send. Print kinds. Print nstalled. Print ncases.
 """
 
 
@@ -85,6 +88,9 @@ def run(res, pid):
                  "over a connection that delivers the peer's bytes in pieces, the handshake outcome, the messages delivered, how the connection ended, "
                  "or the handshaker's behaviour next to stalled peers differs from Model/Wire.v (hs_check / parse_stream)"),
                 ("send_cases", sends, "bad_send", "the bytes Send wrote differ from Model/Wire.v frame"),
+                ("sendfail_cases", items(text, "sendfail_cases"), "bad_sendfail",
+                 "a stream pipe's Send whose write failed did not return the error, or released the message although it reported failure (the sender "
+                 "protocols release or re-queue it themselves: the buffer returns to the pool while still in use): (ipc, body length, error returned, releases by the pipe)"),
                 ("late_cases", items(text, "late_cases"), "bad_late",
                  "a connection handed to a closed handshaker / websocket listener (Close ran between the caller's check and the registration) was left open, "
                  "or the registering call never returned: (what, first flag, second flag) = for Start: (connection closed, -); for the websocket upgrade: (ServeHTTP returned, connection closed)")):
